@@ -1,12 +1,13 @@
 """C11 - hot update: one consistent generation per request, none fails on update (DESIGN 5/C11).
 
-Spec: specs/HotUpdate.tla (+ _Gen, _Trace).  Phases (VERIF_PHASES=probe,mc,mbt,kinds,tv):
+Spec: specs/HotUpdate.tla (+ _Gen, _MC, _Trace) and specs/HotUpdateGF.tla (+ _Gen, _MC: the GlobalFilter, whose optional before/after
+pipelines an HTTPServer runs around every pipeline).  Phases (VERIF_PHASES=probe,mc,mbt,kinds,tv):
   probe  the implementation-shaped parameters of the model are *observed* on the real code: how the
          Inherit of RateLimiter / Proxy treats the previous generation's state cell (move/share/fresh)
          and what Close does to Handle
   mc     TLC checks the contract (Consistent, NoFailure, Available, Visibility, Isolation, Settled,
          Configured, Limited, IsolationStep, NoOp) exhaustively for the contract's modes; shows that the
-         invariants are not vacuous (five deliberately wrong knobs must violate them); checks the observed modes -
+         invariants are not vacuous (six deliberately wrong knobs must violate them); checks the observed modes -
          a violation there is a lead (a schedule), decided by replaying schedules on the real code
   mbt    TLC-generated schedules replayed step by step on the real mux + TrafficController +
          Pipelines + filters (httpserver harness), on the TrafficController (trafficcontroller
@@ -17,7 +18,14 @@ resilience section - and an update changes either or both (PipKinds); request cl
 generation a request holds observable on the real code: class "x" (POST: a URL rule every generation limits to 1 permit
 per hour - the limiter is the state cell generations share; must still limit after Close(prev)), class "f" (the backend
 answers 503: the Proxy makes maxAttempts = pv + 1 attempts, the retry policy of the held generation's resilience section).
+Class "d" (PUT: a URL whose rule falls under the RateLimiter's *default policy*): updates of kind "dflt" switch the default policy
+between a tight one (1 permit per hour) and a loose one (never limits), both defined identically in the old and the new spec - by
+defaultPolicyRef, by the rule's policyRef or by the content of the policy (one realisation per schedule); a loose generation must
+not limit, a tight one must not let more pass than its limit (bare RateLimiter and one-filter pipeline harnesses).
 Judged only on generations that are not closed; baselines on a first generation guard the reading.
+GlobalFilter (mbt-gf): schedules of HotUpdateGF (each update keeps / changes / drops / adds the before and the after section;
+requests stop at marker filters in the before, main and after pipelines) replayed on real GlobalFilter objects (Inherit); a
+request must pass exactly the pipelines the spec of the generation it holds defines.
   tv     stress: concurrent requests vs. an updater on the real objects, validated by TLC
          (HotUpdate_Trace); -race in the thorough tier
 """
@@ -34,6 +42,7 @@ P_TC = "pkg/object/trafficcontroller"
 P_PIPE = "pkg/object/pipeline"
 P_RL = "pkg/filters/ratelimiter"
 P_PX = "pkg/filters/proxy"
+P_GF = "pkg/object/globalfilter"
 
 CONTRACT_MODES = {"InhRl": "share", "ClsRl": "none", "InhPx": "fresh", "ClsPx": "stop"}
 INVS = "INVARIANTS TypeOK Consistent NoFailure Available Visibility Isolation Settled Configured Limited\nPROPERTIES IsolationStep NoOp\n"
@@ -43,7 +52,7 @@ LOCK = threading.Lock()
 
 def cfg(modes, kinds="KindsFull", reqs=2, ops=2, srv=2, pip=2, other=2, same=1, maxreq=1, targets='{"srv","q"}',
         atomic="fine", lps=False, props=True, view=True, srvkinds='{"rules","opts","both"}', ips='{"n","b"}', mc=False,
-        pipkinds='{"both"}', classes='{"n"}', reuse=False, blocking='{"px"}'):
+        pipkinds='{"both"}', classes='{"n"}', reuse=False, blocking='{"px"}', stale=False):
     """cfg text for HotUpdate_MC (mc=True: exhaustive checking, no `out` variable) or HotUpdate_Gen (behaviour generation)"""
     rs = ",".join('"r%d"' % i for i in range(1, reqs + 1))
     t = ("SPECIFICATION %s\nCONSTANTS\n  Reqs = {%s}\n  Routed <- RoutedDef\n  Others = {\"q\"}\n  Kinds <- %s\n" % (
@@ -51,9 +60,9 @@ def cfg(modes, kinds="KindsFull", reqs=2, ops=2, srv=2, pip=2, other=2, same=1, 
     for k in ("InhRl", "ClsRl", "InhPx", "ClsPx"):
         t += '  %s = "%s"\n' % (k, modes[k])
     t += ("  MaxOps = %d\n  MaxSrv = %d\n  MaxPip = %d\n  MaxOther = %d\n  MaxSame = %d\n  MaxReq = %d\n  LoadPerStep = %s\n"
-          "  Targets = %s\n  Blocking = %s\n  SrvKinds = %s\n  IPs = %s\n  PipKinds = %s\n  Classes = %s\n  Reuse = %s\n" % (
+          "  Targets = %s\n  Blocking = %s\n  SrvKinds = %s\n  IPs = %s\n  PipKinds = %s\n  Classes = %s\n  Reuse = %s\n  Stale = %s\n" % (
               ops, srv, pip, other, same, maxreq, "TRUE" if lps else "FALSE", targets, blocking, srvkinds, ips, pipkinds, classes,
-              "TRUE" if reuse else "FALSE"))
+              "TRUE" if reuse else "FALSE", "TRUE" if stale else "FALSE"))
     if not mc:
         t += '  Atomic = "%s"\n' % atomic
     if view:
@@ -67,12 +76,17 @@ def cfg(modes, kinds="KindsFull", reqs=2, ops=2, srv=2, pip=2, other=2, same=1, 
 CONF_SLICE = dict(ops=2, srv=0, pip=2, other=0, same=0, maxreq=1, targets='{"pa"}', ips='{"n"}', srvkinds='{"both"}',
                   pipkinds='{"filters","resil","both"}', classes='{"n","x","f"}')
 
+# the default-policy slice: requests of class "d" (a URL whose rule falls under the filter's default policy) go straight to
+# pipeline pa (one Limiting filter) while updates change the filter spec with or without switching the default policy
+DFLT_SLICE = dict(kinds="KindsRl", ops=2, srv=0, pip=2, other=0, same=0, maxreq=1, targets='{"pa"}', ips='{"n"}', srvkinds='{"both"}',
+                  pipkinds='{"filters","dflt"}', classes='{"n","d"}')
+
 TRACE_CFG = ("SPECIFICATION TSpec\nCONSTANTS\n  Reqs = {\"w0\",\"w1\",\"w2\",\"w3\",\"w4\",\"w5\",\"w6\",\"w7\"}\n  Routed <- RoutedDef\n"
              "  Others = {\"q\"}\n  Kinds <- KindsFull\n  InhRl = \"share\"\n  ClsRl = \"none\"\n  InhPx = \"fresh\"\n  ClsPx = \"stop\"\n"
              "  MaxOps = 100000000\n  MaxSrv = 100000000\n  MaxPip = 100000000\n  MaxOther = 100000000\n  MaxSame = 100000000\n"
              "  MaxReq = 100000000\n  LoadPerStep = FALSE\n  Targets = {\"srv\",\"q\"}\n  Blocking = {\"px\"}\n"
              "  SrvKinds = {\"rules\",\"opts\",\"both\"}\n  IPs = {\"n\",\"b\"}\n"
-             "  PipKinds = {\"both\"}\n  Classes = {\"n\"}\n  Reuse = FALSE\n"
+             "  PipKinds = {\"both\"}\n  Classes = {\"n\"}\n  Reuse = FALSE\n  Stale = FALSE\n"
              "CONSTRAINT HWM\nPOSTCONDITION Accepted\n"
              "INVARIANTS Consistent NoFailure Available Visibility Isolation Settled TV_NoFailure TV_Consistent TV_NoOp TV_Visibility\n")
 
@@ -83,7 +97,8 @@ def run(ctx):
                        "(per harness: httpserver+trafficcontroller+pipeline+filters, trafficcontroller, one-filter pipelines of every kind, bare "
                        "RateLimiter/Proxy); pipeline updates change the filters, the resilience section or both, and requests of class x "
                        "(beyond the limit every generation configures) / f (failing backend call, retried as the held generation's retry "
-                       "policy says) show which configuration handled them; traces = stress runs of the real mux/TrafficController validated by TLC; non-trivial = distinct schedules "
+                       "policy says) / d (a URL under the RateLimiter's default policy, which updates switch) show which configuration handled them; "
+                       "GlobalFilter generations (HotUpdateGF: before/after sections kept, changed, dropped, added) replayed on real GlobalFilter objects; traces = stress runs of the real mux/TrafficController validated by TLC; non-trivial = distinct schedules "
                        "in which a request step happens between the first and the last step of an update, or a request holds a superseded generation")
     ctx.assumptions += [
         "the harness stops requests only where it can without hooks: between m.inst.Load() and serveHTTP, in its MuxMapper wrapper, in marker "
@@ -98,17 +113,21 @@ def run(ctx):
         modes = _probe(ctx)
     ctx.notes.append({"observed_modes": modes})
     jobs = []
-    if ctx.phase("mc"):
-        jobs.append(lambda: _mc(ctx, modes))      # model checking runs next to the harness jobs: it only needs the observed modes
-    for sub, job in (("http", lambda: _mbt_http(ctx, modes)), ("tc", lambda: _mbt_tc(ctx)), ("rl", lambda: _mbt_filter(ctx, modes, "rl")),
-                     ("px", lambda: _mbt_filter(ctx, modes, "px"))):
-        if _sub(ctx, "mbt", sub):
-            jobs.append(job)
+    # the longest jobs first (four run side by side): the sweep over all filter kinds, the httpserver replay, model checking
     if ctx.phase("kinds"):
         jobs.append(lambda: _mbt_kinds(ctx, modes))
+    if _sub(ctx, "mbt", "http"):
+        jobs.append(lambda: _mbt_http(ctx, modes))
+    if ctx.phase("mc"):
+        jobs.append(lambda: _mc(ctx, modes))      # model checking runs next to the harness jobs: it only needs the observed modes
+        jobs.append(lambda: _mc_gf(ctx))
     if ctx.phase("tv"):
         for v in TV_VARIANTS:
             jobs.append(lambda v=v: _tv_one(ctx, *v))
+    for sub, job in (("gf", lambda: _mbt_gf(ctx)), ("tc", lambda: _mbt_tc(ctx)), ("rl", lambda: _mbt_filter(ctx, modes, "rl")),
+                     ("px", lambda: _mbt_filter(ctx, modes, "px"))):
+        if _sub(ctx, "mbt", sub):
+            jobs.append(job)
     _parallel(ctx, jobs)
 
 
@@ -181,7 +200,11 @@ def _mc(ctx, modes):
     r3 = ctx.tlc_mc(M, cfg(CONTRACT_MODES, mc=True, **(dict(CONF_SLICE, classes='{"x","f"}') if ctx.quick else dict(CONF_SLICE, maxreq=2))),
                     label="contract, configuration slice: 2 requests (classes n/x/f) x pipeline updates of filters / resilience / both",
                     timeout=600 if ctx.quick else 1500)
-    ctx.log("contract model checked: %d + %d + %d distinct states, depth %d / %d / %d" % (r.distinct, r2.distinct, r3.distinct, r.depth, r2.depth, r3.depth))
+    r4 = ctx.tlc_mc(M, cfg(CONTRACT_MODES, mc=True, **(DFLT_SLICE if ctx.quick else dict(DFLT_SLICE, ops=3, pip=3, maxreq=2))),
+                    label="contract, default-policy slice: 2 requests (classes n/d) x pipeline updates that switch / keep the default policy of the limiter",
+                    timeout=600 if ctx.quick else 1500)
+    ctx.log("contract model checked: %d + %d + %d + %d distinct states, depth %d / %d / %d / %d" % (
+        r.distinct, r2.distinct, r3.distinct, r4.distinct, r.depth, r2.depth, r3.depth, r4.depth))
     # the invariants are not vacuous: deliberately wrong implementation knobs must break them
     for label, c, want in (("knob: every step re-reads m.inst", cfg(CONTRACT_MODES, ops=1, maxreq=1, lps=True, mc=True), "Consistent"),
                            ("knob: Inherit moves the cell away (RateLimiter.reload at the pin)",
@@ -190,7 +213,9 @@ def _mc(ctx, modes):
                            ("knob: reload takes over the instance of a filter whose own spec is unchanged, with the policies it works under",
                             cfg(CONTRACT_MODES, mc=True, reuse=True, **CONF_SLICE), "Configured"),
                            ("knob: Close of the previous generation disables the limiter the new one shares",
-                            cfg(dict(CONTRACT_MODES, ClsRl="disable"), mc=True, **CONF_SLICE), "Limited")):
+                            cfg(dict(CONTRACT_MODES, ClsRl="disable"), mc=True, **CONF_SLICE), "Limited"),
+                           ("knob: Inherit keeps the limiter of a URL rule although the default policy the rule falls under was switched",
+                            cfg(CONTRACT_MODES, mc=True, stale=True, **DFLT_SLICE), "Configured")):
         k = ctx.tlc_mc(M, c, expect_ok=False, count=False, label=label, timeout=300)
         if k.ok or k.violated != want:
             ctx.inconclusive("HotUpdate: %s should violate %s but TLC says ok=%s violated=%s" % (label, want, k.ok, k.violated))
@@ -208,8 +233,8 @@ def _mc(ctx, modes):
 
 
 # ------------------------------------------------------------------------------------------ mbt
-def _behaviours(ctx, c, num, depth, name):
-    behs = ctx.tlc_simulate("HotUpdate_Gen", c, num=num, depth=depth)
+def _behaviours(ctx, c, num, depth, name, module="HotUpdate_Gen"):
+    behs = ctx.tlc_simulate(module, c, num=num, depth=depth)
     seen, out = set(), []
     for b in behs:
         h = sha(b)
@@ -315,21 +340,28 @@ def _short(beh):
 def _conf_cover(behs):
     """how often a schedule shows the configuration of a generation that an update produced: a class "x" request limited by a
     generation that is not the first and not closed; a class "f" request retried under the policies of a generation whose
-    resilience section and filters were not updated in lockstep"""
-    lim = pol = 0
+    resilience section and filters were not updated in lockstep; a class "d" request handled by a Limiting filter of a generation
+    whose default policy an update has switched (passing under the loose policy after the tight one's permit was used / limited)"""
+    lim = pol = dfl = 0
     for b in behs:
+        passed = False    # a class "d" request has passed a Limiting filter in this schedule
         for s in b:
             if s.get("a") in ("run", "exit") and s.get("ver", 0) > 1 and not s.get("closed"):
-                lim += s.get("res") == "limited"
+                lim += s.get("res") == "limited" and s.get("cl") == "x"
                 pol += s.get("res") == "bfail" and s.get("fv") != s.get("pv")
-    return lim, pol
+                dfl += s.get("cl") == "d" and s.get("k") == "rl" and s.get("dv", 1) > 1 and (s.get("res") == "limited" or (passed and not s.get("tight")))
+            if s.get("a") in ("run", "exit") and s.get("cl") == "d" and s.get("k") == "rl" and s.get("res") == "pass":
+                passed = True
+    return lim, pol, dfl
 
 
 def _need_cover(ctx, where, behs, minimum, need=("lim", "pol")):
-    lim, pol = _conf_cover(behs)
-    ctx.log("%s: %d requests beyond the limit on an updated generation, %d failing backend calls under a resilience section updated on its own / not updated" % (where, lim, pol))
-    if ("lim" in need and lim < minimum) or ("pol" in need and pol < minimum):
-        ctx.inconclusive("C11 %s: the schedules hardly show the configuration of updated generations (%d limited, %d retried; need %d)" % (where, lim, pol, minimum))
+    lim, pol, dfl = _conf_cover(behs)
+    ctx.log("%s: %d requests beyond the limit on an updated generation, %d failing backend calls under a resilience section updated on its own / not updated, "
+            "%d requests under a switched default policy" % (where, lim, pol, dfl))
+    if ("lim" in need and lim < minimum) or ("pol" in need and pol < minimum) or ("dfl" in need and dfl < minimum):
+        ctx.inconclusive("C11 %s: the schedules hardly show the configuration of updated generations (%d limited, %d retried, %d under a switched default policy; "
+                         "need %d)" % (where, lim, pol, dfl, minimum))
 
 
 def _mbt_http(ctx, modes):
@@ -380,11 +412,18 @@ def _mbt_filter(ctx, modes, k):
     kinds, pkg, test = {"rl": ("KindsRl", P_RL, "^TestVerifC11RlReplay$"), "px": ("KindsPx", P_PX, "^TestVerifC11PxReplay$")}[k]
     # RateLimiter: updates that leave the filter's own spec alone (resilience section only) or change it, and requests of
     # class "x" for a URL that every generation limits (the limiter is the state cell the generations share)
-    extra = dict(pipkinds='{"filters","resil","both"}', classes='{"n","x"}') if k == "rl" else {}
+    # + updates that switch the default policy, and class "d" for the URL that falls under it
+    extra = dict(pipkinds='{"filters","resil","both","dflt"}', classes='{"n","x","d"}') if k == "rl" else {}
     c = cfg(modes, kinds=kinds, ops=4, srv=0, maxreq=3, targets='{"pa","q"}', same=0, atomic="coarse", props=False, view=False, **extra)
     behs, p = _behaviours(ctx, c, n, 45, k)
     if k == "rl":
-        _need_cover(ctx, "RateLimiter", behs, 5, need=("lim",))
+        # + the default-policy slice: every request is for a limited URL, every update changes the filter's spec
+        behs2, p2 = _behaviours(ctx, cfg(modes, kinds=kinds, ops=4, srv=0, other=0, maxreq=4, targets='{"pa"}', same=0, atomic="coarse", props=False,
+                                         view=False, pipkinds='{"filters","dflt"}', classes='{"x","d"}'), n // 2, 45, "rl_dflt")
+        behs = behs + behs2
+        with open(p, "a") as fh:
+            fh.write(open(p2).read())
+        _need_cover(ctx, "RateLimiter", behs, 10, need=("lim", "dfl"))
     outp = ctx.path("c11_replay_%s.ndjson" % k)
     rc, out = ctx.go_test(pkg, test, env={"VERIF_IN": p, "VERIF_OUT": outp}, timeout=1200)
     recs = ctx.read_ndjson(outp)
@@ -402,10 +441,11 @@ def _mbt_kinds(ctx, modes):
     # (x: beyond the limit every generation configures; f: the backend call fails and is retried as the resilience section says)
     (behs, p), rl, px = _together(
         lambda: _behaviours(ctx, cfg(CONTRACT_MODES, kinds="KindsOne", **common), n, 40, "kinds"),
-        lambda: _behaviours(ctx, cfg(modes, kinds="KindsRl", classes='{"n","x"}', **dict(common, ops=4, maxreq=3)), 2 * n, 45, "kinds_rl"),
+        lambda: _behaviours(ctx, cfg(modes, kinds="KindsRl", classes='{"x","d"}', **dict(common, ops=4, maxreq=3, targets='{"pa"}', other=0, pipkinds='{"filters","resil","dflt"}')),
+                            2 * n, 45, "kinds_rl"),
         lambda: _behaviours(ctx, cfg(modes, kinds="KindsPx", classes='{"n","f"}', blocking="{}", **dict(common, ops=4, maxreq=3)), 2 * n, 45, "kinds_px"))
     cset = {"rl": rl, "px": px}
-    _need_cover(ctx, "pipeline/RateLimiter", cset["rl"][0], 5, need=("lim",))
+    _need_cover(ctx, "pipeline/RateLimiter", cset["rl"][0], 5, need=("lim", "dfl"))
     _need_cover(ctx, "pipeline/Proxy/resilience", cset["px"][0], 5, need=("pol",))
     outp = ctx.path("c11_replay_kinds.ndjson")
     rc, out = ctx.go_test(P_PIPE, "^TestVerifC11Kinds$", timeout=1500,
@@ -435,6 +475,110 @@ def _mbt_kinds(ctx, modes):
         ctx.inconclusive("C11 pipeline sweep: the kinds that show the configuration of a generation (RateLimiter, Proxy/resilience) were not both replayed")
     ctx.log("pipeline: %d kinds x %d schedules, %d steps replayed; not built offline: %s" % (
         len([x for x in kinds if x.get("built")]), len(behs), total, sorted(x["kind"] for x in kinds if not x.get("built"))))
+
+
+# ------------------------------------------------------------------------------------------ GlobalFilter
+GF_INVS = "VIEW view\nINVARIANTS TypeOK Installed Consistent Visibility Servable\n"
+
+
+def gf_cfg(mc, upd=2, maxreq=1, reqs=2, keep=False, props=True, sidekinds='{"keep","change","drop"}'):
+    """cfg text for HotUpdateGF_MC (mc=True) / HotUpdateGF_Gen"""
+    rs = ",".join('"r%d"' % i for i in range(1, reqs + 1))
+    t = "SPECIFICATION %s\nCONSTANTS\n  Reqs = {%s}\n  MaxUpd = %d\n  MaxReq = %d\n  SideKinds = %s\n  KeepRemoved = %s\n" % (
+        "MCSpec" if mc else "GSpec", rs, upd, maxreq, sidekinds, "TRUE" if keep else "FALSE")
+    return t + (GF_INVS if props else "")
+
+
+def _mc_gf(ctx):
+    M = "HotUpdateGF_MC"
+    if ctx.quick:
+        # two slices (the thorough tier checks their product): one request process, issuing two requests, against two updates;
+        # two concurrent requests against one update
+        r = ctx.tlc_mc(M, gf_cfg(True, 2, 2, reqs=1), label="GlobalFilter contract: 1 x 2 requests x 2 updates (each side kept / changed / dropped / added)", timeout=600)
+        r2 = ctx.tlc_mc(M, gf_cfg(True, 1, 1), label="GlobalFilter contract: 2 requests x 1 update", timeout=600)
+    else:
+        r = ctx.tlc_mc(M, gf_cfg(True, 2, 2), label="GlobalFilter contract: 2 x 2 requests x 2 updates (each side kept / changed / dropped / added)", timeout=900)
+        r2 = ctx.tlc_mc(M, gf_cfg(True, 3, 1), label="GlobalFilter contract: 2 requests x 3 updates", timeout=1500)
+    ctx.log("GlobalFilter contract model checked: %d + %d distinct states, depth %d / %d" % (r.distinct, r2.distinct, r.depth, r2.depth))
+    k = ctx.tlc_mc(M, gf_cfg(True, 2, 1, reqs=1, keep=True), expect_ok=False, count=False, timeout=300,
+                   label="knob: the new GlobalFilter generation takes the previous generation's pipelines over and replaces only those its spec defines")
+    if k.ok or k.violated != "Installed":
+        ctx.inconclusive("HotUpdateGF: knob KeepRemoved should violate Installed but TLC says ok=%s violated=%s" % (k.ok, k.violated))
+
+
+def _gf_cover(behs):
+    """requests that complete on a generation which an update produced by dropping a section the previous generation had"""
+    n = 0
+    for b in behs:
+        dropped = set()
+        for s in b:
+            if s.get("a") == "gfBegin" and "drop" in (s.get("kb"), s.get("ka")):
+                dropped.add(s["g"])
+            if s.get("a") == "done" and s.get("g") in dropped:
+                n += 1
+    return n
+
+
+def _gf_interesting(b):
+    """a request step between the first and the last step of an update, or a request that runs on a superseded generation"""
+    inupd, cur = False, 1
+    for s in b:
+        a = s.get("a")
+        if a == "gfBegin":
+            inupd = True
+        elif a == "gfStore":
+            inupd, cur = False, s.get("g")
+        elif inupd and a in ("load", "enter", "run", "main"):
+            return True
+        elif a == "done" and s.get("g", cur) < cur:
+            return True
+    return False
+
+
+def _mbt_gf(ctx):
+    n = 150 if ctx.quick else 1500
+    behs, p = _behaviours(ctx, gf_cfg(False, upd=4, maxreq=3, props=False), n, 60, "gf", module="HotUpdateGF_Gen")
+    drops = _gf_cover(behs)
+    ctx.log("GlobalFilter: %d schedules, %d requests complete on a generation whose update dropped a before/after section" % (len(behs), drops))
+    if drops < 20:
+        ctx.inconclusive("C11 GlobalFilter: the schedules hardly exercise updates that drop a section (%d requests on such generations)" % drops)
+    outp = ctx.path("c11_replay_gf.ndjson")
+    rc, out = ctx.go_test(P_GF, "^TestVerifC11GfReplay$", env={"VERIF_IN": p, "VERIF_OUT": outp}, timeout=1200)
+    recs = ctx.read_ndjson(outp)
+    if rc != 0:
+        ctx.inconclusive("C11 GlobalFilter replay harness failed:\n" + out[-3000:])
+    with LOCK:
+        summ = [x for x in recs if x.get("k") == "summary"]
+        if not summ:
+            ctx.inconclusive("C11 GlobalFilter replay harness wrote no summary:\n%s" % out[-3000:])
+        ctx.evals(len(behs))
+        ctx.traces(len(behs))
+        for b in behs:
+            if _gf_interesting(b):
+                ctx.nontrivial({"w": "globalfilter", "b": [(s.get("a"), s.get("r"), s.get("g"), s.get("side")) for s in b]})
+        for m in [x for x in recs if x.get("k") == "mismatch"]:
+            what = m["what"]
+            if what.startswith("harness:") or "stuck" in what:
+                ctx.inconclusive("C11 GlobalFilter replay: %s\n%s" % (what, _short_gf(m["behaviour"])))
+            clause = {"panic": "NoFailure", "status": "NoFailure", "mixed": "Consistent", "visibility": "Visibility"}.get(what.split(":")[0], "Consistent/Visibility")
+            # the update that produced the generation the request holds
+            r = m.get("at", {}).get("r")
+            held = [s.get("g") for s in m["behaviour"] if s.get("a") == "load" and s.get("r") == r]
+            upd = [s for s in m["behaviour"] if s.get("a") == "gfBegin" and held and s.get("g") == held[-1]]
+            sig = {"kind": "replay", "object": "GlobalFilter", "clause": clause, "step": m["a"],
+                   "update": "%s/%s" % (upd[-1].get("kb"), upd[-1].get("ka")) if upd else "-"}
+            ctx.violation(sig, "[globalfilter] real system diverges from HotUpdateGF at step %d (%s): %s - schedule: %s" % (
+                m["step"], m["a"], what, _short_gf(m["behaviour"])), m)
+        s = summ[0]
+        ctx.sample({"kind": "tlc-schedule (GlobalFilter generations)", "steps": behs[0][:10]})
+        ctx.log("GlobalFilter: %d schedules, %d steps replayed, %d requests compared with the spec of the generation they held (%d on a generation without a "
+                "before or after pipeline)" % (s["behaviours"], s["steps"], s["judged"], s["dropped"]))
+        if s["judged"] < len(behs) and not [x for x in recs if x.get("k") == "mismatch"]:
+            ctx.inconclusive("C11 GlobalFilter replay: only %d requests judged in %d schedules" % (s["judged"], len(behs)))
+
+
+def _short_gf(beh):
+    return " ".join("%s%s" % (s.get("a"), "(" + ",".join(str(s[k]) for k in ("r", "g", "kb", "ka", "side", "ver") if k in s) + ")") for s in beh[-16:])
 
 
 # ------------------------------------------------------------------------------------------ tv
